@@ -399,6 +399,22 @@ pub fn c12(out: &mut dyn Write, tier: &str, rng: &mut Rng, st: &mut Stats) {
         writeln!(out, "C12|cli|ch{}{}|{}|{}|{}|{}|{}", channel, flags, hex(&text), tcl, otext, ocl, class).unwrap();
         st.hit(&format!("cli.{}", class));
     }
+    // names as long as the 64 KiB bound allows (a text that is one name of 65530 … 65536 bytes; a long name next to a short
+    // one; a long non-ASCII name): the table's column widths are computed from them
+    for (k, (len, tail)) in [(65530usize, ""), (65533, ""), (65534, ""), (65535, ""), (65536, ""), (65500, " | b"), (40000, " & zz")].iter().enumerate() {
+        let unit = if k % 3 == 2 { "\u{e9}" } else { "a" };
+        let mut text: String = unit.repeat(*len / unit.len());
+        text.push_str(tail);
+        for flags in [vec!["-t"], vec!["-v"], vec!["-t", "-v"], vec!["-m", "-t"], vec!["-t", "-f", "true"]] {
+            let fpath = format!("{}/c12_long_name.txt", scratch);
+            std::fs::write(&fpath, text.as_bytes()).unwrap();
+            let mut args: Vec<String> = vec![fpath.clone()];
+            args.extend(flags.iter().map(|s| s.to_string()));
+            let class = run_class(&bin, &args, &[], 60);
+            writeln!(out, "C12|cli|ch1{}|{}|{}|-||{}", flags.join(""), hex(text.as_bytes()), classes_of(&text), class).unwrap();
+            st.hit(&format!("cli.long-name.{}", class));
+        }
+    }
     // values of -f / -c that are no spelling of a truth value (empty, non-ASCII first character, wrong case, too long) next
     // to the accepted ones, in every way of writing the option: refused with a usage error, never a panic
     let values = ["", "\u{e9}", "\u{2713}", "\u{e4}rgerlich", "x", "TRUE", "tr", "2", "**", "t", "True", "0", "A", "*", "any", " true", "true ", "t\u{301}",
